@@ -1,4 +1,4 @@
-import OmplModel.Proofs.LBKPIECE1
+import OmplModel.Proofs.LBKPIECE1Disc
 /-!
 `LBKPIECE1::removeMotion` removes EXACTLY a motion and its descendants, and frees each of them once.
 
@@ -778,5 +778,248 @@ theorem addMotion_forest (cfg : Cfg S α) {st : St S α} (hF : Forest st.ar) (m 
         obtain ⟨cm', hcm', _, f2, _⟩ := old c cm hcm
         exact ⟨cm', hcm', f2.trans hca⟩
       · exact ⟨m, new, ha⟩
+
+def AliveAt (ar : Array (Motion S)) (i : Nat) : Prop := ∃ m, ar[i]? = some m ∧ m.alive = true
+
+theorem AliveAt.congr {ar ar' : Array (Motion S)} (h : ∀ k : Nat, (ar'[k]?).map proj = (ar[k]?).map proj) {i : Nat}
+    (ha : AliveAt ar i) : AliveAt ar' i := by
+  obtain ⟨m, hm, hma⟩ := ha
+  obtain ⟨m', hm', _, _, e⟩ := proj_fwd h hm
+  exact ⟨m', hm', e.trans hma⟩
+
+theorem modifyAt_valid_proj (ar : Array (Motion S)) (i : Nat) (k : Nat) :
+    ((modifyAt ar i (fun x => { x with valid := true }))[k]?).map proj = (ar[k]?).map proj := by
+  rw [getElem?_modifyAt]
+  by_cases e : i = k
+  · rw [if_pos e]
+    cases ar[k]? with
+    | none => rfl
+    | some x => rfl
+  · rw [if_neg e]
+
+/-- the lazy validation walk keeps the forest (its `removeMotion` call meets the precondition of
+`removeSubtree_exact`: the motion it removes is live), and a walk that answers `true` removed and added nothing -/
+theorem validateFrom_forest (cfg : Cfg S α) (t : Bool) : ∀ (ids : List Nat) (st : St S α), Forest st.ar →
+    (∀ i ∈ ids, AliveAt st.ar i) →
+      Forest (validateFrom cfg t ids st).2.ar ∧
+      ((validateFrom cfg t ids st).1 = true →
+        ∀ k : Nat, ((validateFrom cfg t ids st).2.ar[k]?).map proj = (st.ar[k]?).map proj) := by
+  intro ids
+  induction ids with
+  | nil => intro st h _; exact ⟨h, fun _ _ => rfl⟩
+  | cons i rest ih =>
+    intro st hF hal
+    have keep := ih st hF (fun j hj => hal j (List.mem_cons_of_mem _ hj))
+    unfold validateFrom
+    cases hm : st.ar[i]? with
+    | none => exact keep
+    | some m =>
+      simp only []
+      by_cases hv : m.valid = true
+      · rw [if_pos hv]; exact keep
+      · rw [if_neg hv]
+        cases hb : m.parent.bind (fun p => st.ar[p]?.map (fun pm => (p, pm))) with
+        | none => exact keep
+        | some ppm =>
+          obtain ⟨p, pm⟩ := ppm
+          have hpar : m.parent = some p ∧ st.ar[p]? = some pm := by
+            cases hp0 : m.parent with
+            | none => simp [hp0] at hb
+            | some p0 =>
+              simp only [hp0, Option.bind_some, Option.map_eq_some_iff, Prod.mk.injEq] at hb
+              obtain ⟨a, ha, rfl, rfl⟩ := hb
+              exact ⟨rfl, ha⟩
+          simp only []
+          by_cases hr : (cfg.checkMotion pm.state m.state).1 = true
+          · rw [if_pos hr]
+            have hpj := modifyAt_valid_proj st.ar i
+            obtain ⟨a, b⟩ := ih { st with ar := modifyAt st.ar i (fun x => { x with valid := true }) }
+              (hF.congr hpj) (fun j hj => (hal j (List.mem_cons_of_mem _ hj)).congr hpj)
+            exact ⟨a, fun ht k => (b ht k).trans (hpj k)⟩
+          · rw [if_neg hr]
+            have hia : m.alive = true := by
+              obtain ⟨m', hm', ha'⟩ := hal i (List.mem_cons_self ..)
+              rw [hm] at hm'; cases hm'; exact ha'
+            obtain ⟨hF1, L, _, _, hL, _, hlive⟩ := removeSubtree_exact cfg t st hF hm hia
+            split
+            · refine ⟨addMotion_forest cfg hF1 _ rfl rfl ?_, fun h => by cases h⟩
+              intro p' hp'
+              simp only [Option.some.injEq] at hp'
+              subst hp'
+              -- the parent of the removed motion stays live: it is older than `i`, hence no descendant
+              obtain ⟨pm0, hpm0, hpa, hin⟩ := hF.listed i p m hm hia hpar.1
+              obtain ⟨pm', hpm', _⟩ := (removeSubtree_frame cfg t (st.ar.size + 1) i true st).1.2 p pm0 hpm0
+              refine ⟨pm', hpm', (hlive p pm' hpm').2 ⟨⟨pm0, hpm0, hpa⟩, fun hd => ?_⟩⟩
+              have h1 := hd.le hF.back
+              have h2 := (hF.back p i pm0 hpm0 hin).1
+              omega
+            · exact ⟨hF1, fun h => by cases h⟩
+
+/-- the ancestors of a live motion are live -/
+theorem chainUp_alive {ar : Array (Motion S)} (hF : Forest ar) : ∀ (fuel i : Nat), AliveAt ar i →
+    ∀ j ∈ chainUp ar fuel i, AliveAt ar j := by
+  intro fuel
+  induction fuel with
+  | zero => intro i _ j hj; cases hj
+  | succ f ih =>
+    intro i hi j hj
+    unfold chainUp at hj
+    obtain ⟨m, hm, hma⟩ := hi
+    rw [hm] at hj
+    simp only [] at hj
+    cases hp : m.parent with
+    | none =>
+      rw [hp] at hj
+      simp only [List.mem_singleton] at hj
+      subst hj; exact ⟨m, hm, hma⟩
+    | some p =>
+      rw [hp] at hj
+      simp only [List.mem_cons] at hj
+      rcases hj with rfl | hj
+      · exact ⟨m, hm, hma⟩
+      · obtain ⟨pm, hpm, hpa, _⟩ := hF.listed i p m hm hma hp
+        exact ih p ⟨pm, hpm, hpa⟩ j hj
+
+theorem isPathValid_forest (cfg : Cfg S α) (t : Bool) (i : Nat) (st : St S α) (hF : Forest st.ar) (hi : AliveAt st.ar i) :
+    Forest (isPathValid cfg t i st).2.ar ∧
+    ((isPathValid cfg t i st).1 = true → ∀ k : Nat, ((isPathValid cfg t i st).2.ar[k]?).map proj = (st.ar[k]?).map proj) := by
+  unfold isPathValid
+  exact validateFrom_forest cfg t _ st hF (fun j hj => chainUp_alive hF _ i hi j (List.mem_reverse.1 hj))
+
+/-! ### every reachable arena is a forest -/
+
+theorem addMotion_new (cfg : Cfg S α) (st : St S α) (m : Motion S) (hne : m.parent ≠ some st.ar.size) :
+    (addMotion cfg st m).ar[st.ar.size]? = some m := by
+  rw [addMotion_get, Array.getElem?_push, if_pos rfl]
+  simp only [Option.map_some, if_neg hne]
+
+theorem addMotion_aliveAt (cfg : Cfg S α) (st : St S α) (m : Motion S) {k : Nat} (h : AliveAt st.ar k) :
+    AliveAt (addMotion cfg st m).ar k := by
+  obtain ⟨x, hx, hxa⟩ := h
+  have hk : k < st.ar.size := (Array.getElem?_eq_some_iff.1 hx).1
+  refine ⟨_, by rw [addMotion_get, Array.getElem?_push, if_neg (by omega), hx]; rfl, ?_⟩
+  split <;> exact hxa
+
+theorem parent_ne_size {st : St S α} {p : Nat} (h : AliveAt st.ar p) : (some p : Option Nat) ≠ some st.ar.size := by
+  intro e
+  obtain ⟨x, hx, _⟩ := h
+  have := (Array.getElem?_eq_some_iff.1 hx).1
+  cases e
+  omega
+
+theorem tryConnect_forest {cfg : Cfg S α} {starts : Array S} {st : St S α} (h : LInv cfg starts st) (hF : Forest st.ar)
+    (useStart : Bool) (id : Nat) (hid : AliveAt st.ar id) (existing : Motion S) (x : S) (dr : Draw S α) (info : Info) :
+    Forest (tryConnect cfg useStart st id existing x dr info).1.ar := by
+  rcases tryConnect_cases cfg useStart st id existing x dr info with e | ⟨ocd, co, cm, hl, hco, hcm, r1, r2, hr1, hr2, hcase⟩
+  · rw [e]; exact hF
+  · have hFa : Forest (addMotion cfg st (mkConnect cm existing id useStart)).ar :=
+      addMotion_forest cfg hF _ rfl rfl (fun p hp => by
+        simp only [mkConnect, Option.some.injEq] at hp; subst hp; exact hid)
+    have hnew : AliveAt (addMotion cfg st (mkConnect cm existing id useStart)).ar st.ar.size :=
+      ⟨_, addMotion_new cfg st _ (parent_ne_size hid), rfl⟩
+    have h1 := isPathValid_forest cfg useStart st.ar.size _ hFa hnew
+    rw [← hr1] at h1
+    have h2 : r1.1 = true → Forest r2.2.ar := by
+      intro h1t
+      obtain ⟨mco, hmco, hmcoa, _⟩ := cell_motion h.2 (!useStart) hl hco
+      have hco1 : AliveAt r1.2.ar co :=
+        (addMotion_aliveAt cfg st (mkConnect cm existing id useStart) ⟨mco, hmco, hmcoa⟩).congr (h1.2 h1t)
+      rw [hr2]
+      exact (isPathValid_forest cfg (!useStart) co r1.2 h1.1 hco1).1
+    rcases hcase with ⟨_, e⟩ | ⟨h1t, _, e⟩ | ⟨h1t, _, e⟩
+    · rw [e]; exact h1.1
+    · rw [e]; exact h2 h1t
+    · rw [e]; exact h2 h1t
+
+theorem goalPhase_forest (cfg : Cfg S α) {st : St S α} (hF : Forest st.ar) : Forest (goalPhase cfg st).1.ar := by
+  unfold goalPhase
+  simp only []
+  split
+  · rename_i s _
+    exact addMotion_forest cfg (st := { st with sampledGoals := _ }) hF
+      { state := s, parent := none, root := s, valid := true, children := [], inStart := false } rfl rfl
+      (fun p hp => by cases hp)
+  · exact hF
+
+theorem step_forest {cfg : Cfg S α} {starts : Array S} (hcoord : ∀ s, (cfg.coord s).length = cfg.P.dim)
+    {st : St S α} (h : LInv cfg starts st) (hF : Forest st.ar) (dr : Draw S α) : Forest (step cfg st dr).1.ar := by
+  unfold step
+  simp only []
+  have h0 : LInv cfg starts (({ st with startTree := !st.startTree } : St S α).setDisc st.startTree
+      (countIteration (({ st with startTree := !st.startTree } : St S α).disc st.startTree))) := by
+    apply setDisc_linv (st := ({ st with startTree := !st.startTree } : St S α)) ⟨h.1, ⟨h.2.dS, h.2.dG, h.2.coh⟩⟩
+    have := (⟨h.2.dS, h.2.dG, h.2.coh⟩ : DOK cfg ({ st with startTree := !st.startTree } : St S α)).disc st.startTree
+    exact ⟨this.ginv, this.sync, this.mot, this.cov, this.size, this.lnd⟩
+  have hF0 : Forest (({ st with startTree := !st.startTree } : St S α).setDisc st.startTree
+      (countIteration (({ st with startTree := !st.startTree } : St S α).disc st.startTree))).ar := by
+    rw [ar_setDisc]; exact hF
+  have hg := goalPhase_linv hcoord h0
+  have hFg := goalPhase_forest cfg hF0
+  generalize (goalPhase cfg (({ st with startTree := !st.startTree } : St S α).setDisc st.startTree
+      (countIteration (({ st with startTree := !st.startTree } : St S α).disc st.startTree)))) = gp at hg hFg
+  split
+  · exact hFg
+  · have hsel := select_inv (hg.2.disc st.startTree) dr.u dr.pick
+    have hs := setDisc_linv hg st.startTree _ hsel.1
+    have hFs : Forest (gp.1.setDisc st.startTree (select cfg.P (gp.1.disc st.startTree) dr.u dr.pick).1).ar := by
+      rw [ar_setDisc]; exact hFg
+    split
+    · exact hFs
+    · rename_i e ecell hsome
+      have hmem := hsel.2 e ecell hsome
+      obtain ⟨me, hme, hmea, hmet, _⟩ := (mem_liveAr cfg st.startTree gp.1.ar e ecell).1 hmem
+      split
+      · exact hFs
+      · rename_i existing hex
+        rw [ar_setDisc] at hex
+        rw [hme] at hex; cases hex
+        have hea : AliveAt (gp.1.setDisc st.startTree (select cfg.P (gp.1.disc st.startTree) dr.u dr.pick).1).ar e :=
+          ⟨me, by rw [ar_setDisc]; exact hme, hmea⟩
+        have hadd : LInv cfg starts (addMotion cfg (gp.1.setDisc st.startTree (select cfg.P (gp.1.disc st.startTree) dr.u dr.pick).1)
+            { state := dr.nearSample, parent := some e, root := me.root, valid := false, children := [], inStart := st.startTree }) := by
+          refine ⟨addMotion_inv hs.1 _ ⟨me, by rw [ar_setDisc]; exact hme, fun hv => by cases hv⟩, ?_⟩
+          refine addMotion_dok hcoord hs.2 _ rfl rfl ?_
+          intro p hp
+          simp only [Option.some.injEq] at hp; subst hp
+          exact ⟨me, by rw [ar_setDisc]; exact hme, hmet⟩
+        have hFadd : Forest (addMotion cfg (gp.1.setDisc st.startTree (select cfg.P (gp.1.disc st.startTree) dr.u dr.pick).1)
+            { state := dr.nearSample, parent := some e, root := me.root, valid := false, children := [], inStart := st.startTree }).ar :=
+          addMotion_forest cfg hFs _ rfl rfl (fun p hp => by
+            simp only [Option.some.injEq] at hp; subst hp; exact hea)
+        apply tryConnect_forest hadd hFadd
+        exact ⟨_, addMotion_new cfg _ _ (parent_ne_size hea), rfl⟩
+
+theorem loop_forest {cfg : Cfg S α} {starts : Array S} (hcoord : ∀ s, (cfg.coord s).length = cfg.P.dim) :
+    ∀ (script : List (Draw S α)) (st : St S α), LInv cfg starts st → Forest st.ar → Forest (loop cfg st script).1.ar
+  | [], _, _, hF => hF
+  | dr :: rest, st, h, hF => by
+    unfold loop
+    simp only []
+    split
+    · exact step_forest hcoord h hF dr
+    · exact loop_forest hcoord rest _ (step_linv hcoord h dr) (step_forest hcoord h hF dr)
+
+theorem addStarts_forest (cfg : Cfg S α) : ∀ (l : List S) (st : St S α), Forest st.ar → Forest (addStarts cfg l st).ar
+  | [], _, hF => hF
+  | s :: rest, st, hF => by
+    unfold addStarts
+    exact addStarts_forest cfg rest _ (addMotion_forest cfg hF _ rfl rfl (fun p hp => by cases hp))
+
+theorem initState_forest (cfg : Cfg S α) (starts : Array S) : Forest (initState cfg starts).1.ar := by
+  unfold initState
+  apply addStarts_forest
+  refine ⟨?_, ?_, ?_, ?_⟩ <;> intros <;> simp at *
+
+/-- **every arena `solve` reaches is a forest** -/
+theorem solve_forest (cfg : Cfg S α) (hcoord : ∀ s, (cfg.coord s).length = cfg.P.dim) (starts : Array S)
+    (script : List (Draw S α)) : Forest (solve cfg starts script).final.ar := by
+  unfold solve
+  simp only []
+  split
+  · exact initState_forest cfg starts
+  · split
+    · exact initState_forest cfg starts
+    · have := loop_forest hcoord script _ (initState_linv cfg hcoord starts) (initState_forest cfg starts)
+      split <;> exact this
 
 end OmplModel.LBKPIECE1
